@@ -164,6 +164,7 @@ def run_chunk(job):
     """job = (kind, [tokens]) -> list of violations (key, what, case) + counters"""
     kind, toks = job
     d = _W['d']
+    d.recycle_if_big()
     ent = KINDS[kind][0]
     viol = []
     counts = {'cases': 0, 'grammar': 0, 'liberal': 0, 'invalid': 0, 'unjudged': 0, 'empty': 0, 'accepted': 0, 'errors': 0}
